@@ -34,12 +34,36 @@ A0_ARG_SERVICES = [1, 4, 8, 9, 11, 32, 34, 35, 36, 93]   # PrintInt, PrintString
 A1_ARG_SERVICES = [8]                                     # ReadString (buffer, length)
 
 
-def observables(node, st):
+CALLEE_SAVED = [2, 8, 9] + list(range(18, 28))   # sp, s0-s11 (ra is read by the return jump itself)
+RETURN_REGS = [10, 11]
+ARG_REGS = list(range(10, 18))
+
+
+def observables(node, st, nodes=None, idx=None):
     i = node["inst"]
     if node["kind"] != "inst" or i is None:
         return []
     k = i["k"]
     R = e4.R
+    if node.get("call") and node.get("callee", -1) >= 0:
+        # the callee reads (at most) its argument registers - those the analysis inferred for it; that the
+        # inference covers what the callee's body reads is decided inside the callee (node and edge conditions
+        # from its first instruction back to its entry) and by `interprocedural_failures`
+        return [("argument register x%d read by the callee" % r, R(st, r)) for r in node.get("call_args", [])]
+    if node.get("is_ret"):
+        # back in the caller: it may read every callee-saved register (convention) and the return registers
+        # that some call site of this function has live after the call
+        obs = [("jump target", R(st, i["rs1"]))] if k == "Jalr" else []
+        obs += [("callee-saved x%d handed back to the caller" % r, R(st, r)) for r in CALLEE_SAVED]
+        wanted = set()
+        for f in (nodes or []):
+            if f["kind"] == "func_entry" and f.get("fexit", -1) == idx:
+                fi = nodes.index(f)
+                for c in nodes:
+                    if c.get("call") and c.get("callee", -1) == fi:
+                        wanted |= set(c["live_out"]) & set(RETURN_REGS)
+        obs += [("return register x%d read by a caller after the call" % r, R(st, r)) for r in sorted(wanted)]
+        return obs
     if k == "Branch":
         a, b = R(st, i["rs1"]), R(st, i["rs2"])
         t = {"Eq": "(= %s %s)", "Ne": "(distinct %s %s)", "Lt": "(bvslt %s %s)", "Ge": "(bvsge %s %s)",
@@ -108,7 +132,7 @@ def vcs_for(nodes):
         p1 = clobber(n, e4.step(n, s1, fresh), fresh)
         cnt[0] = 0
         p2 = clobber(n, e4.step(n, s2, fresh), fresh)
-        for (what, t1), (_, t2) in zip(observables(n, s1), observables(n, s2)):
+        for (what, t1), (_, t2) in zip(observables(n, s1, nodes, idx), observables(n, s2, nodes, idx)):
             out.append(("at '%s': %s depends on a register that is not live-in" % (n["text"], what), idx,
                         "(and %s (distinct %s %s))" % (agree, t1, t2)))
         if n["kind"] == "func_entry":
@@ -135,11 +159,28 @@ def edge_failures(nodes):
     return bad
 
 
+def interprocedural_failures(nodes):
+    """the coupling between a call site and its callee, as far as it is about soundness"""
+    bad = []
+    for idx, n in enumerate(nodes):
+        if n.get("call") and n.get("callee", -1) >= 0:
+            f = nodes[n["callee"]]
+            missing = sorted((set(f["live_out"]) & set(ARG_REGS)) - set(n.get("call_args", [])))
+            if missing:
+                bad.append("call '%s': argument registers %s are live into the callee's body but not among its inferred arguments" % (n["text"], missing))
+            missing = sorted(set(n.get("call_args", [])) - set(n["live_in"]))
+            if missing:
+                bad.append("call '%s': the callee's argument registers %s are not live before the call" % (n["text"], missing))
+        if n["kind"] == "func_entry":
+            missing = sorted((set(n["live_out"]) & set(ARG_REGS)) - set(n.get("fargs", n["live_out"])))
+            if missing:
+                bad.append("function entry: registers %s are live into the body but missing from Function::arguments()" % missing)
+    return bad
+
+
 def eligible(text):
-    """no calls; an ecall only right after its service number has been loaded (li a7, N; ecall)"""
+    """an ecall only right after its service number has been loaded (li a7, N; ecall)"""
     lines = [l.strip() for l in text.split("\n")]
-    if "jal ra" in text or "ret" in lines:
-        return False
     for i, l in enumerate(lines):
         if l == "ecall" and not (i > 0 and lines[i - 1].startswith("li a7, ")):
             return False
@@ -167,7 +208,7 @@ def run(programs):
         nodes = o["nodes"]
         r["nodes"] = len(nodes)
         r["claims"] = sum(32 - len(set(n["live_out"])) for n in nodes)   # "register is dead here" statements
-        for msg in edge_failures(nodes):
+        for msg in edge_failures(nodes) + interprocedural_failures(nodes):
             r["failed"].append({"check": "[C02] " + msg, "model": {}, "reproduced": True})
         vcs, decls = vcs_for(nodes)
         decls = decls + ["(declare-const la_%s (_ BitVec 32))" % l for l in e4.labels_of(nodes)]
@@ -180,7 +221,7 @@ def run(programs):
         if v == "unsat":
             continue
         if v == "sat":
-            m = e4.model_of(decls, q)
+            m = e4.model_of(decls, q) if len(r["failed"]) < 2 else {"-": 1}
             r["failed"].append({"check": "[C02] liveness misses a real use: " + what, "model": {k: val for k, val in m.items() if val},
                                 "reproduced": bool(m)})
         else:
